@@ -15,6 +15,10 @@ def call_builtin(eng, it, f, args, kwargs, node):
             return call_method(eng, it, name[1], name[2], args, kwargs, node)
         if name[0] == 'unbound':
             return it.call_function(name[1], args, kwargs)
+        if name[0] == 'ext':
+            T_ = eng.schema.ext_methods[(name[1].cls, name[2])]
+            eng.result.assumptions.add('external method %s.%s() returns an arbitrary value of its type and has no effect on the stack' % (name[1].cls, name[2]))
+            return eng.sym_value(st, T_, 'ext!%d' % next(st.fresh_counter))
         raise EngineError('builtin %r' % (name,))
     if name.startswith('spec.'):
         return spec_builtin(eng, it, name[5:], args, kwargs)
@@ -350,6 +354,7 @@ def list_method(eng, it, L, m, args, kwargs):
         if k == 1:
             raise PyRaise(VExc('ValueError', (VStr('list.remove(x): x not in list'),)))
         it.list_remove_at(L, p)
+        st.ghost['last_remove_pos'] = p      # ghost: index of the entry list.remove() took out (spec: last_removed_index())
         return VNone()
     if m == 'index':
         raise Unsupported('list.index')
@@ -401,8 +406,16 @@ def queue_method(eng, it, q, m, args, kwargs):
     if m in ('get', 'get_nowait'):
         pol = [ast.literal_eval(c.args[0]) for c in eng.unit.of('queue_get')]
         if pol and pol[0] == 'extern':
-            # another thread may fill the queue while we wait: arbitrary item or Empty
-            return eng.blocking_get(it, q)
+            # blocking wait: an event of the ghost trace; another thread may fill the queue meanwhile, so the outcome is
+            # an arbitrary item or queue.Empty
+            block = kwargs.get('block', args[0] if args else VBool(z3.BoolVal(True)))
+            timeout = kwargs.get('timeout', args[1] if len(args) > 1 else VNone())
+            f = VFunc(eng.fn_const('queue.Queue.get'), TFunc(q.elem))
+            res = eng.callout(it, f, [VRef(q.t, None), block, timeout], {}, None)
+            eng.result.assumptions.add('queue.Queue.get(block, timeout) returns a queued item or raises queue.Empty')
+            if st.branch([z3.BoolVal(True), z3.BoolVal(True)], 'queue_get') == 1:
+                raise PyRaise(VExc('Empty'))
+            return res
         n = list_len(st, L)
         if not st.valid(n > 0):
             if not st.branch_bool(n > 0, 'qget'):
@@ -466,6 +479,11 @@ def spec_builtin(eng, it, name, args, kwargs):
         if isinstance(args[0], VTable):
             return VBool(table_has(st, args[0], it.idx(args[1])))
         return VBool(it.rec_has(it.concretize(args[0]), args[1].s))
+    if name == 'last_removed_index':
+        p_ = st.ghost.get('last_remove_pos')
+        if p_ is None:
+            return it.vint(-1)
+        return it.from_idx(p_)
     if name == 'owner':
         l = it.concretize(args[0], (VList,))
         t = st.hget_in(st.cur_heap(), 'G:own', z3.IntSort(), l.t)
@@ -545,5 +563,10 @@ def spec_builtin(eng, it, name, args, kwargs):
     if name == 'steps':
         # steps(d0, delta, d1): d1 is d0 advanced by a whole number (>= 0) of periods delta
         f = eng.ufun('steps', 3, z3.BoolSort(), [z3.RealSort()] * 3)
+        a_, b_, c_ = it.to_real(args[0]), it.to_real(args[1]), it.to_real(args[2])
+        # instances of the inductive definition (0 periods; one more period) at the terms in question
+        if not st.bound_vars:
+            st.pc_fact(f(a_, b_, a_))
+            st.pc_fact(z3.Implies(f(a_, b_, z3.simplify(c_ - b_)), f(a_, b_, c_)))
         return VBool(f(it.to_real(args[0]), it.to_real(args[1]), it.to_real(args[2])))
     raise EngineError('spec builtin ' + name)
